@@ -738,8 +738,14 @@ class Polyline:
             np.argmax(cumulative_length.reshape(-1, 1) > desired_length, axis=0) - 1
         )
 
-        return transform_result(
-            self.v[index_of_segment]
-            + (desired_length - cumulative_length[index_of_segment]).reshape(-1, 1)
-            * vg.normalize(self.segment_vectors[index_of_segment])
-        )
+        result = self.v[index_of_segment] + (
+            desired_length - cumulative_length[index_of_segment]
+        ).reshape(-1, 1) * vg.normalize(self.segment_vectors[index_of_segment])
+
+        # At the very end of the path no cumulative length exceeds the desired
+        # length, so no segment was found. The path ends at the last vertex,
+        # or for a closed polyline, back at the first vertex.
+        at_end = desired_length >= cumulative_length[-1]
+        result[at_end] = self.v[0] if self.is_closed else self.v[-1]
+
+        return transform_result(result)
